@@ -276,7 +276,11 @@ func TestVerifC01Approved(t *testing.T) {
 			agg, overflow := vmodel.Aggregate(expired)
 			got, _ := vmodel.FromReport(&rep)
 			if !overflow {
-				if d := vmodel.DiffProgs(vmodel.AsRendered(agg), got); d != "" {
+				rendered, collided := vmodel.AsRenderedOf(agg, got)
+				if collided > 0 {
+					vstats.Label("renderedNamesCollide")
+				}
+				if d := vmodel.DiffProgs(rendered, got); d != "" {
 					t.Fatalf("local.%s.json differs from the aggregate of the week's files: %s", week, d)
 				}
 			}
